@@ -624,3 +624,10 @@ package compiler
 //@   ensures  nosource: !old(call("ast.Schemas.LocateObject", pass.schemas, pass.Object.Package, pass.Object.Object).1) ==> len(visitor.newObjects.order) == old(len(visitor.newObjects.order)) && (forall k: string :: visitor.newObjects.records.has(k) == old(visitor.newObjects.records.has(k)))
 //@   ensures  registered: old(schema.Package == pass.As.Package && call("ast.Schemas.LocateObject", pass.schemas, pass.Object.Package, pass.Object.Object).1) ==> visitor.newObjects.records.has(refKey(pass.As.Package, pass.As.Object)) && visitor.newObjects.records[refKey(pass.As.Package, pass.As.Object)].Name == pass.As.Object && visitor.newObjects.records[refKey(pass.As.Package, pass.As.Object)].SelfRef.ReferredPkg == pass.As.Package && visitor.newObjects.records[refKey(pass.As.Package, pass.As.Object)].SelfRef.ReferredType == pass.As.Object
 //@   ensures  deepcopy: old(schema.Package == pass.As.Package && call("ast.Schemas.LocateObject", pass.schemas, pass.Object.Package, pass.Object.Object).1 && (call("ast.Schemas.LocateObject", pass.schemas, pass.Object.Package, pass.Object.Object).0.Type.Kind != ast.KindStruct || len(pass.OmitFields) == 0)) ==> copyrel(old(call("ast.Schemas.LocateObject", pass.schemas, pass.Object.Package, pass.Object.Object).0.Type), visitor.newObjects.records[refKey(pass.As.Package, pass.As.Object)].Type)
+//
+// remove_intersections keeps its work lists in maps of the pass value; Process creates them before it
+// binds the callbacks to the receiver (checked where r.processObject is created), so the callbacks may
+// write them.
+//@ func RemoveIntersections.processObject
+//@   property C04
+//@   binds maps: r.objectsToRemove != nil && r.arraysToFix != nil
